@@ -1,5 +1,6 @@
 import RpcVerif.Lemmas.ConnProps
 import RpcVerif.Lemmas.ServerInv
+import RpcVerif.Generated.ConnFacts
 /-
   C05 — pipelining executes and completes a connection's calls in order.
   Client half (automaton K) here; the server half is in Props/C05 below once the server
@@ -63,5 +64,10 @@ theorem C05_server_response_order {cfg : S.Cfg} {tr : List S.Ev} {s : S.State} (
     happen inside one critical section of the connection's receive lock — however many of the
     poller's workers serve the connection at once. -/
 theorem C05_poll_mode_is_the_same_automaton : Gen.pollReadAndDispatchUnderReceiveLock = true := by decide
+
+/-- The client half: with pipelining every completion goes through the ordered completion queue and
+    the sweep fails the pending calls in sequence-number order (facts read from conn.go). -/
+theorem C05_client_source_facts :
+    (Gen.connCompletesThroughOrderedQueue && Gen.connSweepsInSequenceOrder) = true := by decide
 
 end RpcVerif.Props
